@@ -23,7 +23,7 @@ PLAN = {'quick': {'gen': 8}, 'thorough': {'gen': 16, 'tests': 1, 'docs': 1}}
 REQUIRED_BUCKETS = ['range:identical', 'range:nested', 'range:overlap', 'range:disjoint', 'grid:uniform', 'grid:nonuniform',
                     'op:add', 'op:subtract', 'op:multiply', 'op:divide', 'op:power', 'sampling:min', 'sampling:left',
                     'sampling:right', 'sampling:float', 'fill:0', 'fill:nonzero', 'unit:nm', 'unit:um', 'unit:m',
-                    'unit:angstrom', 'unit:mixed', 'scalar', 'vector', 'method:quadratic', 'method:cubic', 'blackbody', 'density', 'update-sequence', 'values:integer', 'scalar:numpy-type']
+                    'unit:angstrom', 'unit:mixed', 'scalar', 'vector', 'method:quadratic', 'method:cubic', 'blackbody', 'density', 'update-sequence', 'values:integer', 'scalar:numpy-type', 'same-spectrum:two-units']
 REQUIRED_ANCHORS = ['probe:Spectrum._ufunc', 'anchor:_interp_common', 'anchor:_sampling', 'anchor:Spectrum.sample']
 REQUIRED_ORACLES = ['grid', 'value=op(interp)', 'new-object', 'commutative', 'unit-agnostic', 'operands-physically-unchanged',
                     'scalar-elementwise']
@@ -135,7 +135,7 @@ def ufunc_oracle(ctx, args, kwargs, result, exc, pre):
         # tie tolerance at operand end points: alternative with the other side's choice
         def near(x, e):
             # a grid point that IS the end sample (bit for bit) belongs to the operand's range; only near misses are ties
-            return (np.abs(x - e) <= 1e-9 * abs(e)) & (x != e)
+            return (np.abs(x - e) <= 1e-9 * abs(e)) & (np.abs(x - e) > sm.NOMINAL * abs(e))
         tie = near(g, sw[0]) | near(g, sw[-1]) | near(g, ow[0]) | near(g, ow[-1])
         got = np.asarray(result.value, float)
         fin = np.isfinite(ref) & np.isfinite(got)
@@ -289,7 +289,7 @@ def workload(ctx, lentil):
                 ref = OPS[opn](ia, ib)
             tie = np.zeros(len(gnm), bool)
             for e in (wa[0], wa[-1], wb[0], wb[-1]):
-                tie |= np.abs(gnm - e) <= 1e-9 * e
+                tie |= (np.abs(gnm - e) <= 1e-9 * e) & (np.abs(gnm - e) > sm.NOMINAL * e)
             fin = np.isfinite(ref) & ~tie
             ctx.close('value=op(interp)', np.asarray(res.value, float)[fin], ref[fin], 1e-7, f'driver|value|{method}',
                       'higher-order interpolation of polynomial operands does not reproduce op(a(w), b(w))', desc,
@@ -345,7 +345,7 @@ def workload(ctx, lentil):
                 if same:
                     tie = np.zeros(len(gnm), bool)
                     for e in (wa[0], wa[-1], wb[0], wb[-1]):
-                        tie |= np.abs(gnm - e) <= 1e-9 * e
+                        tie |= (np.abs(gnm - e) <= 1e-9 * e) & (np.abs(gnm - e) > sm.NOMINAL * e)
                     v1, v2 = np.asarray(res.value, float), np.asarray(r2.value, float)
                     ia_ = sm.interp_linear(gnm, wa, va, fill)
                     ib_ = sm.interp_linear(gnm, wb, vb, fill)
@@ -409,7 +409,7 @@ def workload(ctx, lentil):
         if same:
             tie = np.zeros(len(w0), bool)
             for e_ in (wa[0], wa[-1], wb[0], wb[-1]):
-                tie |= np.abs(w0 - e_) <= 1e-9 * e_
+                tie |= (np.abs(w0 - e_) <= 1e-9 * e_) & (np.abs(w0 - e_) > sm.NOMINAL * e_)
             same = bool(np.all(np.isclose(v0, v1, rtol=1e-8, atol=1e-11 * float(np.max(np.abs(v0)))) | tie))
         ctx.check(same, 'unit-agnostic', 'unit|density' + ('|mixed' if x != y else ''),
                   'the sum of two per-wavelength densities depends on the wavelength units the operands are expressed in', desc)
@@ -464,6 +464,46 @@ def workload(ctx, lentil):
         except Exception as e:
             ctx.check(False, 'scalar-elementwise', f'scalar|raises={type(e).__name__}', str(e), {'op': opn, 'kind': kind, 'type': type(other).__name__})
 
+    # ---- the same spectrum held in two units (the second copy converted by lentil itself): every sample of the union is
+    # defined in both operands, in either order - including the first and the last one
+    for i in range(max(8, n // 8)):
+        lo_ = float(rng.integers(250, 1200))
+        k = int(rng.integers(5, 60))
+        step = float(rng.integers(1, 12))
+        w = lo_ + step * np.arange(k)
+        v = rng.uniform(0.5, 2, size=k)
+        u1, u2 = [('nm', 'um'), ('nm', 'm'), ('um', 'nm'), ('nm', 'angstrom'), ('m', 'nm'), ('angstrom', 'um')][i % 6]
+        ctx.case({'same-spectrum-two-units': [u1, u2], 'n': k, 'lo': lo_, 'step': step}, ['same-spectrum:two-units'])
+        try:
+            a = R.Spectrum(w.copy(), v.copy(), waveunit='nm')
+            if u1 != 'nm':
+                a.to(u1)
+            b = a.copy()
+            b.to(u2)
+            opn = ['add', 'multiply'][i % 2]
+            r1, r2 = getattr(a, opn)(b), getattr(b, opn)(a)
+            want = 2 * v if opn == 'add' else v * v
+            for lab, r in (('a.b', r1), ('b.a', r2)):
+                rv = np.asarray(r.value, float)
+                ok = len(rv) >= 2 and np.isclose(rv[0], want[0], rtol=1e-9) and np.isclose(rv[-1], want[-1], rtol=1e-9)
+                ctx.check(ok, 'unit-agnostic', 'unit|same-spectrum|end-sample',
+                          'combining a spectrum with its own copy in another wavelength unit loses the first or last sample '
+                          '(the fill value is used where both operands are defined)',
+                          {'units': [u1, u2], 'op': opn, 'order': lab, 'first': [float(rv[0]), float(want[0])],
+                           'last': [float(rv[-1]), float(want[-1])], 'n': [k, len(rv)]})
+        except Exception as e:
+            ctx.check(False, 'unit-agnostic', f'unit|same-spectrum|raises={type(e).__name__}', str(e), {'units': [u1, u2]})
+        # scalars on the left: 2 + s, sum([s, s]) - addition is commutative
+        try:
+            s0 = R.Spectrum(w.copy(), v.copy())
+            cands = [lambda: 2 + s0, lambda: np.float64(1.5) + s0, lambda: sum([s0, s0]), lambda: 2 * s0]
+            wants = [v + 2, v + 1.5, 2 * v, 2 * v]
+            q = i % 4
+            rs = cands[q]()
+            ctx.check(np.allclose(np.asarray(rs.value, float), wants[q], rtol=1e-12), 'commutative', 'commutative|scalar-on-the-left',
+                      'scalar (op) spectrum differs from spectrum (op) scalar', {'form': q})
+        except Exception as e:
+            ctx.check(False, 'commutative', f'commutative|scalar-on-the-left|raises={type(e).__name__}', str(e), {'form': i % 4})
     # ---- Blackbody operands ------------------------------------------------------------------------------
     for i in range(max(6, n // 10)):
         unit = units[int(rng.integers(0, 4))]
